@@ -1,0 +1,282 @@
+//! Observation hooks for external runtime monitors.
+//!
+//! Compiled only with the cargo feature `verif` (off by default). Everything here is
+//! passive: call sites append events to a thread-local log and bump a thread-local
+//! step counter; nothing in the assembler reads this state back.
+
+use std::{
+    cell::{Cell, RefCell},
+    path::Path,
+    sync::atomic::{AtomicU64, Ordering},
+};
+
+use crate::{
+    context::CommonContext,
+    parser::{CodePoint, SegmentType},
+};
+
+/// Event classes (bit mask for `enable`)
+pub const BUILD: u32 = 1;
+pub const LINE: u32 = 2;
+pub const LAYOUT: u32 = 4;
+pub const LOOKUP: u32 = 8;
+pub const INCLUDE: u32 = 16;
+
+#[derive(Clone, PartialEq, Eq, Debug)]
+pub enum Event {
+    /// build_str/build_file entered: sizes of defines, equs, labels, defs, sets, special
+    BuildBegin {
+        seq: u64,
+        tables: [usize; 6],
+        device_default: bool,
+    },
+    BuildEnd {
+        seq: u64,
+    },
+    /// a source line handed to the assembling path (after conditional/macro skipping)
+    Line {
+        path: String,
+        line_num: usize,
+    },
+    /// pass 1: label bound to address
+    Label {
+        name: String,
+        seg: SegmentType,
+        addr: u32,
+        line: usize,
+    },
+    /// pass 1: an item advanced the location counter of its segment by `size` units
+    Sized {
+        line: usize,
+        num: usize,
+        seg: SegmentType,
+        addr: u32,
+        size: u32,
+    },
+    /// pass 2: a segment begins at `addr` (units of the segment), `have` bytes already emitted
+    SegStart {
+        seg: SegmentType,
+        addr: u32,
+        have: usize,
+    },
+    /// pass 2: an item emitted `nbytes` at `addr` and moved the counter by `advance` units
+    Emitted {
+        line: usize,
+        num: usize,
+        seg: SegmentType,
+        addr: u32,
+        nbytes: usize,
+        advance: u32,
+    },
+    /// symbol lookup: which table answered (0 none, 1 define, 2 equ, 3 set, 4 special, 5 label, 6 def)
+    Lookup {
+        name: String,
+        table: u8,
+    },
+    /// include resolution
+    Include {
+        requested: String,
+        resolved: String,
+    },
+}
+
+static SEQ: AtomicU64 = AtomicU64::new(0);
+
+thread_local! {
+    static MASK: Cell<u32> = const { Cell::new(0) };
+    static LOG: RefCell<Vec<Event>> = const { RefCell::new(Vec::new()) };
+    static STEPS: Cell<u64> = const { Cell::new(0) };
+    static BUDGET: Cell<u64> = const { Cell::new(u64::MAX) };
+    static ON_BUDGET: Cell<Option<fn(u64)>> = const { Cell::new(None) };
+    static DEPTH: Cell<u32> = const { Cell::new(0) };
+    static MAX_DEPTH: Cell<u32> = const { Cell::new(0) };
+    static YIELD: Cell<bool> = const { Cell::new(false) };
+}
+
+/// Switch event classes on for the current thread
+pub fn enable(mask: u32) {
+    MASK.with(|m| m.set(mask));
+}
+
+/// Drain the current thread's log
+pub fn take() -> Vec<Event> {
+    LOG.with(|l| std::mem::take(&mut *l.borrow_mut()))
+}
+
+/// Yield the thread at build and line hooks (schedule perturbation for stress runs)
+pub fn set_yield(on: bool) {
+    YIELD.with(|y| y.set(on));
+}
+
+fn on(class: u32) -> bool {
+    MASK.with(|m| m.get() & class != 0)
+}
+
+fn push(e: Event) {
+    LOG.with(|l| l.borrow_mut().push(e));
+}
+
+fn maybe_yield() {
+    if YIELD.with(|y| y.get()) {
+        std::thread::yield_now();
+    }
+}
+
+/// Reset the step counter and depth gauge, set a budget and what to call when it is exceeded
+pub fn reset_steps(budget: u64, on_budget: Option<fn(u64)>) {
+    STEPS.with(|s| s.set(0));
+    BUDGET.with(|b| b.set(budget));
+    ON_BUDGET.with(|c| c.set(on_budget));
+    DEPTH.with(|d| d.set(0));
+    MAX_DEPTH.with(|d| d.set(0));
+}
+
+pub fn steps() -> u64 {
+    STEPS.with(|s| s.get())
+}
+
+pub fn max_depth() -> u32 {
+    MAX_DEPTH.with(|d| d.get())
+}
+
+#[inline]
+pub fn step() {
+    let n = STEPS.with(|s| {
+        let n = s.get() + 1;
+        s.set(n);
+        n
+    });
+    if n > BUDGET.with(|b| b.get()) {
+        if let Some(f) = ON_BUDGET.with(|c| c.get()) {
+            f(n);
+        }
+    }
+}
+
+pub struct DepthGuard;
+
+impl Drop for DepthGuard {
+    fn drop(&mut self) {
+        DEPTH.with(|d| d.set(d.get().saturating_sub(1)));
+    }
+}
+
+#[inline]
+pub fn depth_guard() -> DepthGuard {
+    step();
+    let d = DEPTH.with(|d| {
+        let n = d.get() + 1;
+        d.set(n);
+        n
+    });
+    MAX_DEPTH.with(|m| {
+        if d > m.get() {
+            m.set(d)
+        }
+    });
+    DepthGuard
+}
+
+pub struct BuildScope(u64);
+
+impl Drop for BuildScope {
+    fn drop(&mut self) {
+        if on(BUILD) {
+            push(Event::BuildEnd {
+                seq: SEQ.fetch_add(1, Ordering::SeqCst),
+            });
+        }
+        let _ = self.0;
+    }
+}
+
+pub fn build_scope(c: &CommonContext) -> BuildScope {
+    maybe_yield();
+    let seq = SEQ.fetch_add(1, Ordering::SeqCst);
+    if on(BUILD) {
+        push(Event::BuildBegin {
+            seq,
+            tables: [
+                c.defines.borrow().len(),
+                c.equs.borrow().len(),
+                c.labels.borrow().len(),
+                c.defs.borrow().len(),
+                c.sets.borrow().len(),
+                c.special.borrow().len(),
+            ],
+            device_default: *c.device.borrow() == Some(crate::device::Device::new(0)),
+        });
+    }
+    BuildScope(seq)
+}
+
+pub fn line(path: &Path, line_num: usize) {
+    step();
+    maybe_yield();
+    if on(LINE) {
+        push(Event::Line {
+            path: path.to_string_lossy().into_owned(),
+            line_num,
+        });
+    }
+}
+
+pub fn label(name: &str, seg: SegmentType, addr: u32, point: &CodePoint) {
+    if on(LAYOUT) {
+        push(Event::Label {
+            name: name.to_string(),
+            seg,
+            addr,
+            line: point.line_num,
+        });
+    }
+}
+
+pub fn sized(point: &CodePoint, seg: SegmentType, addr: u32, end: u32) {
+    if on(LAYOUT) && end != addr {
+        push(Event::Sized {
+            line: point.line_num,
+            num: point.num,
+            seg,
+            addr,
+            size: end.wrapping_sub(addr),
+        });
+    }
+}
+
+pub fn seg_start(seg: SegmentType, addr: u32, have: usize) {
+    if on(LAYOUT) {
+        push(Event::SegStart { seg, addr, have });
+    }
+}
+
+pub fn emitted(point: &CodePoint, seg: SegmentType, addr: u32, end: u32, nbytes: usize) {
+    if on(LAYOUT) && (nbytes != 0 || end != addr) {
+        push(Event::Emitted {
+            line: point.line_num,
+            num: point.num,
+            seg,
+            addr,
+            nbytes,
+            advance: end.wrapping_sub(addr),
+        });
+    }
+}
+
+pub fn lookup(name: &str, table: impl FnOnce() -> u8) {
+    if on(LOOKUP) {
+        push(Event::Lookup {
+            name: name.to_string(),
+            table: table(),
+        });
+    }
+}
+
+pub fn include(requested: &Path, resolved: &Path) {
+    if on(INCLUDE) {
+        push(Event::Include {
+            requested: requested.to_string_lossy().into_owned(),
+            resolved: resolved.to_string_lossy().into_owned(),
+        });
+    }
+}
